@@ -132,9 +132,60 @@ DecVal(q, n, s, strict) ==
 ConstValT == [q \in 1..NP |-> [n \in 1..NN(q) |-> IF IsConst(q, n) THEN Node(q, n).c ELSE Zero9]]
 
 MulOK(x, y) == Fits(x, 2) /\ Fits(y, 2)
+
+\* ---- IEEE doubles as 8-byte little-endian tokens: just enough to decide the DOMAIN of the
+\* lifted functions below (sign, NaN, infinity, zero, order of magnitudes)
+FNeg(r) == r[8] >= 128
+FExp(r) == (r[8] % 128) * 16 + (r[7] \div 16)
+FMantZero(r) == r[7] % 16 = 0 /\ \A i \in 1..6 : r[i] = 0
+FNaN(r) == FExp(r) = 2047 /\ ~FMantZero(r)
+FInf(r) == FExp(r) = 2047 /\ FMantZero(r)
+FZero(r) == FExp(r) = 0 /\ FMantZero(r)
+FMag(r) == <<r[8] % 128, r[7], r[6], r[5], r[4], r[3], r[2], r[1]>>     \* big-endian magnitude
+RECURSIVE SeqLt(_, _, _)
+SeqLt(x, y, i) == IF i > Len(x) THEN FALSE
+                  ELSE IF x[i] # y[i] THEN x[i] < y[i] ELSE SeqLt(x, y, i + 1)
+MagLt(r, s) == SeqLt(FMag(r), FMag(s), 1)     \* |r| < |s| for non-NaN doubles
+
+\* Python integer floor division / modulo on the 32-bit window (both operands fit 3 bytes)
+DivOK(x, d) == Fits(x, 3) /\ Fits(d, 3)
+PyFloorDiv(x, d) == IF d > 0 THEN x \div d ELSE (-x) \div (-d)
+PyMod(x, d) == x - PyFloorDiv(x, d) * d
+
+\* DOMAIN of a deterministic node: outside it Python raises (ZeroDivisionError, OverflowError,
+\* ValueError "math domain error", IndexError, ...) when the value is recomputed from decoded
+\* dependency values -- which sceneFromBytes must turn into SerializationError.
+\*   tdiv  a = <<x, d>>   x / d          (true division: the result is kept as a term)
+\*   floordiv, mod  a = <<x, d>>         x // d, x % d
+\*   pow10 a = <<r>> thr = smallest double whose power of ten overflows     10 ** r
+\*   sqrt, log, acos a = <<r>> (thr = 1.0 for acos)                        math.sqrt(r) ...
+\*   index a = <<i>> c = the list (Python indexing: -n..n-1)                LST[i]
+\*   chr   a = <<n>>                                                       ord(chr(n))
+DomOK(q, n, v) ==
+  LET a == Args(q, n) kd == Kind(q, n) IN
+  CASE kd \in {"tdiv", "floordiv", "mod"} -> v[a[2]] # Zero9
+    [] kd = "pow10" -> LET r == v[a[1]] IN FNaN(r) \/ FNeg(r) \/ FInf(r) \/ MagLt(r, Node(q, n).thr)
+    [] kd = "sqrt" -> LET r == v[a[1]] IN FNaN(r) \/ ~FNeg(r) \/ FZero(r)
+    [] kd = "log" -> LET r == v[a[1]] IN FNaN(r) \/ (~FNeg(r) /\ ~FZero(r))
+    [] kd = "acos" -> LET r == v[a[1]] IN FNaN(r) \/ ~MagLt(Node(q, n).thr, r)
+    [] kd = "index" -> LET i == v[a[1]] no == Len(Node(q, n).c) IN
+                       Fits(i, 4) /\ ToInt(i) >= -no /\ ToInt(i) < no
+    [] kd = "chr" -> LET i == v[a[1]] IN Fits(i, 4) /\ ToInt(i) >= 0 /\ ToInt(i) <= 1114111
+    [] OTHER -> TRUE
 Det(q, n, v) ==
   LET a == Args(q, n) kd == Kind(q, n) IN
   CASE kd = "mux" -> v[a[ToInt(v[a[1]]) + 2]]
+    [] kd = "tdiv" -> <<0 - 1>> \o v[a[1]] \o v[a[2]]           \* a term: equal operands, equal result
+    [] kd \in {"pow10", "sqrt", "log", "acos"} -> <<0 - 2>> \o v[a[1]]
+    [] kd = "floordiv" -> IF DivOK(v[a[1]], v[a[2]]) /\ v[a[2]] # Zero9
+                          THEN FromInt(PyFloorDiv(ToInt(v[a[1]]), ToInt(v[a[2]]))) ELSE Zero9
+    [] kd = "mod" -> IF DivOK(v[a[1]], v[a[2]]) /\ v[a[2]] # Zero9
+                     THEN FromInt(PyMod(ToInt(v[a[1]]), ToInt(v[a[2]]))) ELSE Zero9
+    [] kd = "index" -> IF DomOK(q, n, v)
+                       THEN LET no == Len(Node(q, n).c) i == ToInt(v[a[1]]) IN
+                            FromInt(Node(q, n).c[(IF i < 0 THEN i + no ELSE i) + 1])
+                       ELSE Zero9
+    [] kd = "chr" -> v[a[1]]
     [] kd = "add" -> AddB(v[a[1]], v[a[2]])
     [] kd = "sub" -> SubB(v[a[1]], v[a[2]])
     [] kd = "mul" -> IF MulOK(v[a[1]], v[a[2]]) THEN FromInt(ToInt(v[a[1]]) * ToInt(v[a[2]])) ELSE Zero9
@@ -143,7 +194,9 @@ Det(q, n, v) ==
     [] kd = "neg" -> NegB(v[a[1]])
     [] kd = "abs" -> IF IsNeg(v[a[1]]) THEN NegB(v[a[1]]) ELSE v[a[1]]
     [] kd = "ite" -> IF v[a[1]] # Zero9 THEN v[a[2]] ELSE v[a[3]]
-DetExact(q, n, v) == Kind(q, n) # "mul" \/ MulOK(v[Args(q, n)[1]], v[Args(q, n)[2]])
+DetExact(q, n, v) == CASE Kind(q, n) = "mul" -> MulOK(v[Args(q, n)[1]], v[Args(q, n)[2]])
+                       [] Kind(q, n) \in {"floordiv", "mod"} -> DivOK(v[Args(q, n)[1]], v[Args(q, n)[2]])
+                       [] OTHER -> TRUE
 
 Support(q, n, v) ==
   CASE Kind(q, n) = "drange" ->
@@ -177,9 +230,10 @@ Asgs(q, i) == IF i = 0 THEN {<<>>}
 RowsT == [q \in 1..NP |-> SetToSeq(Asgs(q, Len(PrimSeqT[q])))]
 NRows(q) == Len(RowsT[q])
 ValT == [q \in 1..NP |-> [r \in 1..NRows(q) |-> EvalAll(q, NN(q), RowsT[q][r])]]
-\* generator sanity: products only of values that fit 16 bits (32-bit TLC arithmetic)
+\* generator sanity: products only of values that fit 16 bits (32-bit TLC arithmetic), and the
+\* program itself never leaves the domain of its operations on a sample (SupportClosed)
 WellFormedT == [q \in 1..NP |-> [r \in 1..NRows(q) |->
-                  \A n \in SampledT[q] : Primitive(q, n) \/ DetExact(q, n, ValT[q][r])]]
+                  \A n \in SampledT[q] : Primitive(q, n) \/ (DetExact(q, n, ValT[q][r]) /\ DomOK(q, n, ValT[q][r]))]]
 
 \* ------------------------------------------------------------------ Write
 \* st = [seen : set of nodes, out : bytes, fields : sequence of <<node, bytes>>]
@@ -205,7 +259,9 @@ Hdr(q) == Progs[q].hdr
 \*       were read, rest : bytes, err : "ok" | "SerializationError" | "IndexError",
 \*       short / idx : the lenient reader took a short read / a wrapped or failing index,
 \*       exact : every value is exactly representable in 9 bytes]
-RInit(s) == [vals |-> <<>>, order |-> <<>>, rest |-> s, err |-> "ok", short |-> FALSE, idx |-> FALSE, exact |-> TRUE]
+\*       dom : a deterministic node was asked for a value outside its domain]
+RInit(s) == [vals |-> <<>>, order |-> <<>>, rest |-> s, err |-> "ok", short |-> FALSE, idx |-> FALSE, exact |-> TRUE,
+             dom |-> FALSE]
 ValOf(q, st, n) == IF IsConst(q, n) THEN ConstValT[q][n] ELSE st.vals[n]
 FullVals(q, st) == [m \in 1..NN(q) |-> IF m \in DOMAIN st.vals THEN st.vals[m] ELSE ConstValT[q][m]]
 
@@ -236,7 +292,9 @@ RS(q, st, n, strict) ==
   ELSE LET s1 == RSeq(q, st, Deps(q, n), strict) IN
        IF s1.err # "ok" THEN s1
        ELSE LET fv == FullVals(q, s1) IN
-            [s1 EXCEPT !.vals = @ @@ (n :> Det(q, n, fv)), !.exact = @ /\ DetExact(q, n, fv)]
+            IF ~DomOK(q, n, fv)     \* the recomputation raises: not a scene, hence refused
+            THEN [s1 EXCEPT !.err = "SerializationError", !.dom = TRUE]
+            ELSE [s1 EXCEPT !.vals = @ @@ (n :> Det(q, n, fv)), !.exact = @ /\ DetExact(q, n, fv)]
 RSeq(q, st, ns, strict) == IF ns = <<>> THEN st ELSE RSeq(q, RS(q, st, Head(ns), strict), Tail(ns), strict)
 
 Refused(s) == [RInit(s) EXCEPT !.err = "SerializationError"]
@@ -287,7 +345,19 @@ OpaquePos(q, fs, i, off) ==
   ELSE LET L == Len(fs[i][2]) IN
        (IF IsInt(q, fs[i][1]) THEN {} ELSE (off + 1)..(off + L)) \cup OpaquePos(q, fs, i + 1, off + L)
 OpaqueT == [q \in 1..NP |-> [r \in 1..NRows(q) |-> OpaquePos(q, WriteT[q][r].fields, 1, 10)]]
-ModelFlips(k, x) == IF k <= 10 \/ k \in OpaqueT[pid][ai] THEN {(x + 1) % 256, (x + 128) % 256} ELSE FlipVals(x)
+\* programs with sweep = 1 (restricted-domain operations): on their first sample EVERY value of
+\* every byte of an integer field and of the two top bytes (sign, exponent) of a float field
+RECURSIVE SweepPos(_, _, _, _)
+SweepPos(q, fs, i, off) ==
+  IF i > Len(fs) THEN {}
+  ELSE LET L == Len(fs[i][2]) IN
+       (IF IsInt(q, fs[i][1]) THEN (off + 1)..(off + L) ELSE IF L = 8 THEN {off + 7, off + 8} ELSE {})
+          \cup SweepPos(q, fs, i + 1, off + L)
+SweepT == [q \in 1..NP |-> IF Progs[q].sweep = 1 THEN SweepPos(q, WriteT[q][1].fields, 1, 10) ELSE {}]
+ModelFlips(k, x) == IF k <= 10 THEN {(x + 1) % 256, (x + 128) % 256}
+                    ELSE IF ai = 1 /\ k \in SweepT[pid] THEN (0..255) \ {x}
+                    ELSE IF k \in OpaqueT[pid][ai] THEN {(x + 1) % 256, (x + 128) % 256}
+                    ELSE FlipVals(x)
 Flip(k, b) == /\ phase = "written" /\ k \in 1..Len(data) /\ b \in ModelFlips(k, data[k]) /\ (k > 10 \/ ai = 1)
               /\ data' = [data EXCEPT ![k] = b] /\ fault' = [kind |-> "flip", k |-> k, b |-> b]
               /\ phase' = "faulted"
@@ -343,6 +413,21 @@ CorruptionContained ==
   (phase = "read" /\ fault.kind = "flip") =>
      /\ res.strict.err \in {"ok", "SerializationError"}
      /\ (fault.k <= 10 => res.strict.err = "SerializationError" /\ res.lenient.err = "SerializationError")
+\* ... more precisely every corrupted stream is (1) a scene OF THE PROGRAM: every decoded
+\* primitive value lies in its support, (2) a decodable stream with a value outside the support
+\* (the documentation does not say whether such data must be refused: either outcome is
+\* accepted from the code), or (3) refused; a value outside the domain of an operation that
+\* recomputes a deterministic node is always (3): no exception of that operation is a result
+InSupport(q, st) ==
+  \A n \in DOMAIN st.vals : Primitive(q, n) =>
+     ((\A i \in 1..Len(Args(q, n)) : IsConst(q, Args(q, n)[i]) \/ Args(q, n)[i] \in DOMAIN st.vals)
+        => st.vals[n] \in Support(q, n, FullVals(q, st)))
+Classify(q, st) == IF st.err # "ok" THEN "refused" ELSE IF InSupport(q, st) THEN "scene" ELSE "outside"
+DomainErrorsRefused ==
+  (phase = "read") =>
+     /\ res.strict.dom => res.strict.err = "SerializationError"
+     /\ res.lenient.dom => res.lenient.err \in {"SerializationError", "IndexError"}
+     /\ (fault.kind = "none") => Classify(pid, res.strict) = "scene"
 \* data of another program / other compile options is refused
 HeaderGuards ==
   (phase = "read" /\ fault.kind = "foreign") =>
@@ -372,6 +457,15 @@ TruncTable(q, d) ==
          l == ReadScene(q, p, "self", FALSE)
      IN [k |-> k - 1, strict |-> Code(s.err), lenient |-> Code(l.err),
          outs |-> IF l.err = "ok" THEN Outs(q, l) ELSE <<>>, exact |-> l.exact]]
+\* for a sweep program: the class (0 scene of the program, 1 refused, 3 decodable but outside the
+\* support) of every value of every swept byte of the first sample
+SweepTable(q, d) ==
+  LET ps == SetToSortSeq(SweepT[q], <) IN
+  [i \in 1..Len(ps) |->
+     <<ps[i] - 1, [b \in 0..255 |->
+          IF b = d[ps[i]] THEN 0
+          ELSE LET c == Classify(q, ReadScene(q, [d EXCEPT ![ps[i]] = b], "self", TRUE)) IN
+               IF c = "scene" THEN 0 ELSE IF c = "refused" THEN 1 ELSE 3]>>]
 FlipTable(q, d) ==
   [k \in 1..Len(d) |->
      LET bs == SetToSortSeq(FlipVals(d[k]), <) IN
@@ -389,7 +483,8 @@ EmitRow ==
                     outs |-> [i \in 1..Len(Progs[pid].outs) |-> V[Progs[pid].outs[i]]],
                     body |-> W.out, fields |-> W.fields, seen |-> SetToSortSeq(W.seen, <),
                     trunc |-> IF Progs[pid].tab = 1 THEN TruncTable(pid, data) ELSE <<>>,
-                    flips |-> IF Progs[pid].tab = 1 THEN FlipTable(pid, data) ELSE <<>>]))
+                    flips |-> IF Progs[pid].tab = 1 THEN FlipTable(pid, data) ELSE <<>>,
+                    sweep |-> IF Progs[pid].sweep = 1 /\ ai = 1 THEN SweepTable(pid, data) ELSE <<>>]))
 \* one line per fault on which the as-implemented reader deviates from the ideal one (these
 \* are the only places where a listed known finding can explain an observation)
 EmitDeviation ==
